@@ -70,6 +70,9 @@ def setup(tier, seed):
     for mode in ('2d', '3d'):
         for iv in ((0, 1) if tier == 'quick' else (0, 1, 2)):
             out.append({'mode': mode, 'variant': iv, 'n': nbig, 'perm': [(i * 7919 + 5) % nbig for i in range(nbig)]})
+    # scale: several thousand models (beyond 4096) in the distance-independent mode
+    nhuge = 5000 if tier == 'quick' else 20000
+    out.append({'mode': '2d', 'variant': 0, 'n': nhuge, 'perm': [(i * 7919 + 5) % nhuge for i in range(nhuge)]})
     # scale: 90 trial distances (beyond 64) in the distance-dependent mode
     for iv in ((0, 1) if tier == 'quick' else (0, 1, 2)):
         for p in ([4, 2, 0, 3, 1], [0, 1, 2, 3, 4]):
@@ -108,7 +111,9 @@ def run_case(ctx, case, rec, d):
     mode, n = case['mode'], case['n']
     fmt, memmap = VARIANTS[case['variant']]
     perm = case['perm']
-    phys_names = ['p%d_%s' % (i, 'kcxaqfzb'[i % 8]) for i in range(n)]
+    phys_names = ['p%d_%s' % (i, 'kcsaqdeb'[i % 8]) for i in range(n)]          # (names ending in s, d, e or _ are names like any other)
+    if n >= 2:
+        phys_names[1] = phys_names[1] + '_'
     names = [phys_names[i] for i in perm]                 # package order
     k = fc.law_k('power', [fc.BAND_WAV[b] for b in BANDS])
     avlo, avhi = (0.0, 10.0) if case['variant'] != 2 else (2.5, 2.5)        # one load variant runs with A_V pinned to a non-zero value
